@@ -113,7 +113,8 @@ class _ExactReadFile:
     def __getattr__(self, name):
         # Everything else (tell, seek, name...) is the file object's own,
         # except the other ways of reading, which could return short as well.
-        if name in ("readinto", "readinto1", "read1", "peek"):
+        if name in ("_fileobj", "readinto", "readinto1", "read1", "peek"):
+            # (_fileobj: an instance created without __init__, e.g. by copy)
             raise AttributeError(name)
         return getattr(self._fileobj, name)
 
